@@ -24,6 +24,8 @@ type C10Params struct {
 	Rules  NetRules `json:"rules"`
 	Forge  int      `json:"forge"` // number of reference-sealed records injected per direction
 	HelloV bool     `json:"hv"`
+	// RefServer (DTLS 1.3 without connection IDs): the real client talks to a complete server built on refdtls
+	RefServer bool `json:"ref_server,omitempty"`
 }
 
 func c10Counts(tier string) (int, int) {
@@ -44,6 +46,7 @@ func c10Gen(r *rand.Rand, tier string, idx int) any {
 	for i := 0; i < n; i++ {
 		p.Sizes = append(p.Sizes, []int{1, 2, 15, 16, 17, 31, 32, 33, 100, 255, 256, 1000, 1187, 4000, 8000}[r.IntN(15)])
 	}
+	p.RefServer = r.IntN(3) == 0
 	if r.IntN(3) == 0 {
 		p.Rules = NetRules{DropPm: 50 + r.IntN(200), DupPm: r.IntN(100), FaultsUntilIdx: 3 + r.IntN(8)}
 	}
